@@ -71,7 +71,16 @@ class ListWalkerProtocol(Protocol):
         at = widget_at(w, _answer_ver(r, PROTOCOLS["ListWalker"].version(st, w)), r[1])
         return [either(mk_bool(r[0].isnone), both(neg(r[1] == NOPOS), eq(val(r[0]), at)))]
 
+    def _ens_positions(st, w, a, r):
+        # a walker that has a focus lists at least one position (SimpleListWalker / SimpleFocusListWalker: range(len(self)))
+        from pyvc import seqs as Q
+
+        g = PROTOCOLS["ListWalker"].call_quiet(st, w, "get_focus", {})
+        return [either(mk_bool(g[0].isnone), Q.seq_len(r) >= 1)]
+
     methods = {
+        # positions(reverse=False): optional (`hasattr(walker, "positions")`); the positions in list order (reversed order)
+        "positions": PMethod(ListOf(Int, tuple_=True), params=["reverse"], defaults={"reverse": False}, ensures=_ens_positions),
         "get_focus": PMethod(Tup(Opt(WIDGET), Int), params=[], ensures=_ens_get_focus),
         "set_focus": PMethod(None, params=["position"], mutates=True, ensures=_ens_set_focus),
         # (widget, position) of the neighbour, or (None, None) at the end of the list; functions of the walker's state.
@@ -86,7 +95,7 @@ class ListWalkerProtocol(Protocol):
         "get_prev": PMethod(Tup(Opt(WIDGET), Int), params=["position"], ensures=_ens_neighbour),
         "get_next": PMethod(Tup(Opt(WIDGET), Int), params=["position"], ensures=_ens_neighbour),
     }
-    has = {"get_focus": True, "set_focus": True, "get_prev": True, "get_next": True}
+    has = {"get_focus": True, "set_focus": True, "get_prev": True, "get_next": True, "positions": "uf"}
 
     def call(self, ip, st, recv, name, args, kwargs):
         if name == "set_focus":
